@@ -2050,8 +2050,9 @@ class C10(Check):
             'distinct = hash of the (command, set shape, store mode) sequence;'
             ' non-trivial = >= 3 steps compared and >= 1 mutation applied')
     assumptions = [
-        'single session per case (concurrency: C01/C02); a second connection '
-        'only ever EXAMINEs',
+        'one session under test per case (concurrency: C01/C02); a second '
+        'connection EXAMINEs for the dumps and, before one FETCH in five, '
+        'edits flags while nothing else is in flight',
         'UID values, \\Recent, response syntax and message bytes are owned by '
         'C04, C17, C07, C03 and only used here to identify messages',
         'latitudes 1-8 of the module docstring (counted as lat_*)',
